@@ -38,7 +38,7 @@ func init() {
 			"(c) complement, sampling not enumeration: the same bodies free-running under the race detector, 16 goroutines x rounds x GOMAXPROCS {1,2,16}; non-trivial = every execution (each has 9 operations on 3 instances)",
 		Assumptions: []string{"scheduling points are the API calls: fastgo has no locks, channels or atomics, so interleavings inside a call are covered only by the global-state invariant and the sampled race pass",
 			"assembly routines are not instrumented by the race detector; memory orderings are not modelled"},
-		Quick:    TierSpec{MaxDev: -1, Shards: 2, ShardDepth: 3, BudgetS: 200},
+		Quick:    TierSpec{MaxDev: -1, Shards: 2, ShardDepth: 3, BudgetS: 600},
 		Thorough: TierSpec{MaxDev: -1, Shards: 4, ShardDepth: 3, BudgetS: 1200},
 		Harness:  c17Harness,
 		Extra:    c17RacePass,
